@@ -779,10 +779,14 @@ void Interpret::getValue(std::vector<ASTNode*> const & terms)
     Logic & logic = main_solver->getLogic();
     using ValPair = pair<ASTNode const * const,PTRef>;
     std::vector<ValPair> values;
+    // names given inside the terms (:named) stay only if the whole command is answered
+    std::size_t const namesBefore = main_solver->getTermNamesCount();
+    bool allBuilt = true;
     for (auto termNode : terms) {
         ASTNode const & term = *termNode;
         LetRecords tmp;
         PTRef tr = parseTerm(term, tmp);
+        if (tr == PTRef_Undef) { allBuilt = false; }
         if (tr != PTRef_Undef) {
             values.push_back({termNode, model->evaluate(tr)});
             auto pt_str = logic.termToSMT2String(tr);
@@ -790,6 +794,7 @@ void Interpret::getValue(std::vector<ASTNode*> const & terms)
         } else
             comment_formatted("Error parsing the term %s", (**(term.children->begin())).getValue());
     }
+    if (not allBuilt) { main_solver->forgetTermNamesSince(namesBefore); }
     try {
         std::cout << '(';
         for (auto const & valPair : values) {
@@ -1056,13 +1061,17 @@ bool Interpret::defineFun(const ASTNode& n)
     sstat status;
     LetRecords letRecords;
     for (auto const & arg : args) { letRecords.addBinding(arg.formalName, arg.inner); }
+    // names given inside the body (:named) belong to the definition: a definition that is refused gives them back
+    std::size_t const namesBefore = main_solver->getTermNamesCount();
     PTRef tr = parseTerm(term_node, letRecords);
     if (tr == PTRef_Undef) {
         notify_formatted(true, "define-fun returns an unknown sort");
+        main_solver->forgetTermNamesSince(namesBefore);
         return false;
     }
     else if (logic->getSortRef(tr) != ret_sort) {
         notify_formatted(true, "define-fun term and return sort do not match: %s and %s\n", logic->sortToString(logic->getSortRef(tr)).c_str(), logic->sortToString(ret_sort).c_str());
+        main_solver->forgetTermNamesSince(namesBefore);
         return false;
     }
 
@@ -1073,6 +1082,7 @@ bool Interpret::defineFun(const ASTNode& n)
     if (rval) notify_success();
     else {
         notify_formatted(true, "define-fun failed");
+        main_solver->forgetTermNamesSince(namesBefore);
         return false;
     }
 
